@@ -115,7 +115,11 @@ def run(ctx):
                 for st in bb["s"]:
                     if st["k"] == "assign" and st["rv"]["k"] == "aggr" and st["rv"].get("adt") == adt:
                         ctors.append(f)
-        bad = [f["path"] for f in ctors if not f.get("derived") and f.get("name") not in allowed]
+        from .. import inline as INL
+        # a helper that is not a unit of its own belongs to the functions it is spliced into
+        owners = [o for f in ctors for o in INL.owners_of(F, f)]
+        bad = [f["path"] for f in owners if not f.get("derived") and f.get("name") not in allowed]
+        bad += [f["path"] for f in ctors if INL.is_helper(f) and not INL.owners_of(F, f)]
         ctx.check(bool(ctors) and not bad, "E1", "who-constructs:" + what, "%s values are constructed only in %s (and derived Clone/Copy)" % (what, "/".join(allowed)), "",
                   how=str(sorted({f.get("name") for f in ctors})), why=str(bad))
         a = F.adts.get(adt + "<'_>")
